@@ -28,11 +28,17 @@ struct Wait {
 }
 
 pub fn check_log(h: &Hist, info: &SchedInfo) -> Result<(bool, Vec<&'static str>), Failure> {
-    let log = &h.log;
+    check_log_upto(h, info, h.log.len())
+}
+
+/// The same rules over the first `upto` log entries only (C11 uses this to tell whether a breach of the schedule lies
+/// after the point at which the last control handle was dropped).
+pub fn check_log_upto(h: &Hist, info: &SchedInfo, upto: usize) -> Result<(bool, Vec<&'static str>), Failure> {
+    let log = &h.log[..upto.min(h.log.len())];
     let ph = phases(log);
     let mut classes: Vec<&'static str> = vec![];
     let mut nontrivial = false;
-    if let Some(s) = &info.stalled {
+    if let Some(s) = info.stalled.as_ref().filter(|_| upto >= h.log.len()) {
         return Err(failure("stalled", format!("lost wake-up or deadlock: {s}"), h, Some((log.len().saturating_sub(25), log.len()))));
     }
     let mut cur: Option<Wait> = None;
